@@ -743,6 +743,10 @@ def register(reg):
             elif at_gate and not names:
                 # cancelled while waiting for the state lock: nothing happened
                 out.append(("failure_before_gate_touches_nothing", ("C05",), not c.events("field.write")))
+                # from the property (C05): whatever way the call ends, the connection is busy with another request,
+                # idle, or closed.  NEW is none of these: is_available/is_idle/is_closed/has_expired are all False,
+                # so a connection left NEW can neither serve, expire nor be evicted
+                out.append(("cancelled_first_request_does_not_leave_the_connection_new", ("C05", "C07"), F(c, s, "H11._state") != NEW))
             else:
                 out.append(("failed_exchange_is_closed_exactly_once", ("C05", "C01"), names.count("_response_closed") == 1 and names[-1] == "_response_closed"))
                 out.append(("failed_exchange_leaves_idle_or_closed", ("C05",), z3.Or(F(c, s, "H11._state") == IDLE, F(c, s, "H11._state") == CLOSED)))
